@@ -92,6 +92,10 @@ SPECIALS = [
      [S(["interface X"], [S(["description a"]), S(["mtu 9000"])]), S(["interface Y"], [S(["description b"])])],
      [S(["interface X"], [S(["description a", "description c"]), S(["mtu 9000", "mtu 1500"])])],
      "interface * %logic=common.permanent\n    description\n    mtu\n"),
+    # two differently written rules of equal rank match the protected row: the one written first governs it
+    ("interface *\n    description %cant_delete=1\ninterface *\n    description *\n    mtu\n",
+     [S(["interface X"], [S(["description a"]), S(["mtu 9000"])])],
+     [S(["interface X"], [S(["description a", "description b"]), S(["mtu 9000", "mtu 1500"])])]),
 ]
 SPECIAL_ACLS = [x[0] for x in SPECIALS]
 
@@ -165,10 +169,9 @@ def _uncovered_rows(t, level, path=()):
         if kind is None:
             unc.append(path + (row,))
             continue
-        # the rules that govern the row are the matching ones of highest %prio (an explicit priority is part of the ACL
-        # language); the row is a cant_delete row when all of them forbid deletion
-        top = max(r.prio for r in rules) if rules else 0
-        if kind in ("local", "global") and all(all(r.cant_delete) for r in rules if r.prio == top):
+        # the rule that governs the row is the first of the competing matches in the ACL language's ranking (RefAcl.classify:
+        # %prio, specificity, text order); the row is a cant_delete row when that rule forbids deletion
+        if kind in ("local", "global") and all(rules[0].cant_delete):
             cd.append(path + (row,))
         u, c = _uncovered_rows(sub or {}, child, path + (row,))
         unc.extend(u)
